@@ -325,6 +325,22 @@ class Plain:
     @pedantic
     def __call__(self, x: int) -> int:
         return x
+    @pedantic
+    def vm(self, a: int, b: int = 1, *args: int) -> int:
+        return a
+@pedantic
+def vs1(first: int, scale: int = 1, *args: int) -> int:
+    return first
+@pedantic
+def vs2(a: int = 0, b: int = 1, *args: int, k: int = 2, **kw: int) -> int:
+    return a
+@pedantic
+def vs3(*args: int, k: int = 2) -> int:
+    return k
+@pedantic_class
+class KV:
+    def vk(self, a: int, b: int = 1, *args: int, **kw: int) -> int:
+        return a
 '''
 CORNER_CALLS = [('K.plain(self=k, x=1)', lambda m: m.K.plain(self=m.K(), x=1)), ('K().plain(x=1)', lambda m: m.K().plain(x=1)),
                 ('K.st(x=1)', lambda m: m.K.st(x=1)), ('K().st(x=1)', lambda m: m.K().st(x=1)),
@@ -334,6 +350,25 @@ CORNER_CALLS = [('K.plain(self=k, x=1)', lambda m: m.K.plain(self=m.K(), x=1)), 
                 ('Plain()(x=1)', lambda m: m.Plain()(x=1)), ('Plain()(1)', lambda m: m.Plain()(1)),
                 ('K().ds(a=1)', lambda m: m.K().ds(a=1)),
                 ('K().plain(x="s")', lambda m: m.K().plain(x='s')), ('doc_mentions(a="s")', lambda m: m.doc_mentions(a='s'))]
+
+
+def _variadic_calls():
+    """callables that take *args (positional calls allowed) with defaulted named parameters left out / filled positionally /
+    filled by keyword: every call is one Python accepts and every value conforms"""
+    out = []
+    fam = {'vs1': ['3', 'first=3', '3, 2', '3, 2, 5, 6', '3, scale=2', 'first=3, scale=2'],
+           'vs2': ['', '1', '1, 2', '1, 2, 3', 'k=5', '1, z=3', 'a=1, z=3', '1, 2, 3, 4, k=5, z=6'],
+           'vs3': ['', '1, 2', 'k=3', '1, k=3'],
+           'Plain().vm': ['1', '1, 2', '1, 2, 3', 'a=1', 'a=1, b=2'],
+           'KV().vk': ['1', '1, 2', '1, 2, 3', 'a=1', '1, z=4', '1, 2, 3, z=4']}
+    for fn, calls in fam.items():
+        for a in calls:
+            src = f'{fn}({a})'
+            out.append((src, eval('lambda m: m.' + src)))
+    return out
+
+
+CORNER_CALLS += _variadic_calls()
 _corner = {}
 
 
@@ -409,6 +444,35 @@ def named_table():
     class RaisingRepr:
         def __repr__(self):
             raise RuntimeError('repr boom')
+
+    class Order:
+        pass
+
+    class PurchaseOrder:        # unrelated to Order: only the NAME ends with 'Order'
+        pass
+
+    class SubOrder(Order):
+        pass
+
+    class Text:                 # a user class whose name is also a typing export
+        pass
+
+    @dataclasses.dataclass
+    class Inner:
+        n: int
+
+    @dataclasses.dataclass
+    class Outer:
+        inner: Inner
+        more: typing.List[Inner]
+    outer = Outer(Inner(1), [Inner(2)])
+    cyc_list = []
+    cyc_list.append(cyc_list)                       # x = [x]
+    cyc_dict = {}
+    cyc_dict['self'] = cyc_dict                     # d = {'self': d}
+    cyc_inner = []
+    cyc_tuple = (1, cyc_inner)
+    cyc_inner.append(cyc_tuple)                     # t = (1, [t])
     t = [('NT vs own class', nt, NT, True), ('untyped namedtuple vs own class', ut, UT, True), ('NT vs object', nt, object, True),
          ('NT vs Tuple[int, str]', nt, Tuple[int, str], True), ('NT vs tuple[int, str]', nt, tuple[int, str], True),
          ('NT vs unrelated NamedTuple with equal fields', nt, NT2, False), ('NT vs dataclass with equal fields', nt, D, False),
@@ -425,6 +489,19 @@ def named_table():
          ('[object with __eq__ -> True] vs List[None]', [EqAll()], List[None], False),
          ('object whose __repr__ raises vs int', RaisingRepr(), int, False),
          ('object whose __repr__ raises vs object', RaisingRepr(), object, True),
+         # values that contain themselves: never conform to a finite nesting that ends in a scalar
+         ('x = [x] vs List[List[int]]', cyc_list, List[List[int]], False), ('x = [x] vs list[list[str]]', cyc_list, list[list[str]], False),
+         ("d = {'self': d} vs Dict[str, Dict[str, int]]", cyc_dict, Dict[str, Dict[str, int]], False),
+         ('t = (1, [t]) vs Tuple[int, List[Tuple[int, List[int]]]]', cyc_tuple, Tuple[int, List[Tuple[int, List[int]]]], False),
+         ('x = [x] vs List[Any]', cyc_list, List[Any], True),
+         # string annotations: the name must be the name of a class of the MRO, not a suffix of it
+         ("instance of PurchaseOrder vs 'Order'", PurchaseOrder(), 'Order', False), ("instance of a subclass of Order vs 'Order'", SubOrder(), 'Order', True),
+         ("instance of a user class called Text vs 'Text'", Text(), 'Text', True),
+         # dataclass instances with dataclass-valued fields
+         ('nested dataclass instance vs its class', outer, Outer, True), ('nested dataclass instance vs Optional[its class]', outer, Optional[Outer], True),
+         ('[nested dataclass instance] vs list[its class]', [outer], list[Outer], True),
+         ('nested dataclass instance vs Dict[str, Union[Outer, Inner]] value', {'k': outer}, Dict[str, Union[Outer, Inner]], True),
+         ('nested dataclass instance vs the inner class', outer, Inner, False),
          ("instance of K vs 'K'", K(), 'K', True),
          ("instance of an unrelated class that is also called K vs 'K'", K_other(), 'K', False)]
     _named['t'] = t
